@@ -150,6 +150,9 @@ impl Check for C11 {
                 if let Some(b) = encode_oracle(ctx, &v, "struct literal with retained protected bytes") {
                     ctx.nontrivial_bytes(&b);
                 }
+                let mut rebuilt = v.clone();
+                clear_prot_bytes(&mut rebuilt);
+                encode_oracle(ctx, &rebuilt, "same content without retained bytes");
             }
         }
     }
